@@ -491,6 +491,9 @@ def _callees(P, R, fls):
     for scc in sccs:
         if len(scc) == 1 and next(iter(scc)) not in cg.get(next(iter(scc)), ()):
             continue
+        # calls that pass a strict part make progress; what is left must be acyclic (every way round the cycle shrinks the
+        # argument at least once - a helper that hands its text on unchanged to the function that then cuts it is fine)
+        rest, rest_sites = {}, {}
         for name in sorted(scc):
             f = P.fns[name]
             for c in f.calls():
@@ -501,8 +504,20 @@ def _callees(P, R, fls):
                     R.hold("b", "recursive call %s -> %s is structural: %s" % (f.short_name, c.resolved.split("::")[-1], verdict), fn=f, line=c.line)
                     R.sample({"clause": "b", "recursion": "%s -> %s" % (name, c.resolved), "argument": verdict})
                 else:
-                    args = [fmt_sym(f.sym_operand(a))[:60] for a in c.args]
-                    R.violate("b", "recursion:%s->%s" % (name, c.resolved), "recursive call %s -> %s passes no argument that is a strict part of its own parameter (%s): depth is not bounded by the rule's structure" % (name, c.resolved, args), f, c.line)
+                    rest.setdefault(name, set()).add(c.resolved)
+                    rest_sites.setdefault((name, c.resolved), (f, c))
+        bad = set()
+        for sub in _sccs(set(scc), rest):
+            for u in sub:
+                for v in rest.get(u, ()):
+                    if v in sub and (len(sub) > 1 or u == v):
+                        bad.add((u, v))
+        for (name, callee), (f, c) in sorted(rest_sites.items()):
+            if (name, callee) in bad:
+                args = [fmt_sym(f.sym_operand(a))[:60] for a in c.args]
+                R.violate("b", "recursion:%s->%s" % (name, callee), "recursive call %s -> %s passes no argument that is a strict part of its own parameter (%s): depth is not bounded by the rule's structure" % (name, callee, args), f, c.line)
+            else:
+                R.hold("b", "call %s -> %s lies on no cycle without a shrinking call" % (f.short_name, callee.split("::")[-1]), fn=f, line=c.line)
     # d: no fact mutation reachable from gates and the typed-core evaluator
     writers = set(f.name for f in P.fns.values() if f.impl_self == FACTS and any(m == "w" and n.endswith(".data") for (c, m, n) in A.lock_sites(f)))
     ev_reach = P.reachable_fns([r for r in roots if r != EXEC])
@@ -550,6 +565,16 @@ def _structural(f, c):
             elif y[0] == "call" and y[1].endswith(("::strip_prefix", "::strip_suffix")) and len(y[2]) == 2 and strip(y[2][1])[0] == "const" and strip(y[2][1])[2] not in ("", None):
                 # Some(rest) of strip_prefix/suffix with a non-empty pattern is strictly shorter
                 depth += 1
+                y = strip(y[2][0])
+            elif y[0] == "call" and y[1].endswith(("Option::and_then", "Option::map")) and len(y[2]) == 2:
+                # opt.and_then(|rest| rest.strip_suffix(')')): the closure's value for the payload of `opt`
+                payload = ("field", ("variant", y[2][0], "Some"), "0", "std::option::Option::Some")
+                v = A.closure_value(f.prog, y[2][1], (payload,))
+                if v is None:
+                    break
+                y = strip(v)
+            elif y[0] == "call" and y[1].endswith(("str>::split_at", "[T]>::split_at")) and len(y[2]) == 2:
+                # a half of split_at (reached through the .0 / .1 projection counted above) - treated like a sub-range
                 y = strip(y[2][0])
             elif y[0] == "call" and (y[1].endswith(("Option::ok_or", "Option::ok_or_else", "Option::unwrap", "Option::expect")) or y[4] == "std::ops::Try::branch") and y[2]:
                 y = strip(y[2][0])
